@@ -553,7 +553,7 @@ func cmdCheck(args []string) int {
 				}
 				budget := ts.BudgetS
 				if budget == 0 {
-					budget = 240
+					budget = 900 // quick entries finish in seconds to a few minutes; the margin is for a loaded machine
 					if tier == "thorough" {
 						budget = 1500
 					}
